@@ -65,7 +65,124 @@ def all_items(text):
     return out
 
 
+def item_tuples(text):
+    """(module, object | None, alias | None) of every imported name anywhere in the text"""
+    out = []
+    for st in ast.walk(ast.parse(text)):
+        if isinstance(st, ast.Import):
+            out += [(a.name, None, a.asname) for a in st.names]
+        elif isinstance(st, ast.ImportFrom):
+            out += [("." * (st.level or 0) + (st.module or ""), a.name, a.asname) for a in st.names]
+    return out
+
+
+CLI_SRC = '''"""C15 end-to-end fixture: the real `monkeytype apply` command."""
+import typing
+from SHAPES import Square
+
+
+def page(items: typing.Sequence[int], start: int = None, size=10):
+    # existing annotations whose canonical rendering differs from their source text
+    return list(items)[start or 0:size]
+
+
+def label(x, prefix: "str" = "p"):
+    return prefix + str(x)
+
+
+class Box:
+    def put(self, thing, count: int = None):
+        return thing
+
+
+SIDE = Square()  # module level code
+'''
+
+CLI_CFG = '''from monkeytype.config import DefaultConfig
+from monkeytype.db.sqlite import SQLiteStore
+
+
+class Cfg(DefaultConfig):
+    def __init__(self, k):
+        self.k = k
+
+    def trace_store(self):
+        return SQLiteStore.make_store(DB)
+
+    def max_typed_dict_size(self):
+        return self.k
+
+
+CONFIG0 = Cfg(0)
+CONFIG3 = Cfg(3)
+'''
+
+
+def cli_case(work, shapes, modname, ign, pep, k):
+    """One end-to-end run of the real CLI: traces in a SQLite store, `monkeytype stub` for the stub text,
+    `monkeytype apply` twice on the module file.  The case says what the FLAGS asked for (overwrite iff
+    --ignore-existing-annotations, confinement iff --pep_563); the observation is the file `apply` wrote."""
+    import io
+    import typing
+    from monkeytype import cli
+    from monkeytype.tracing import CallTrace
+    from monkeytype.typing import get_type
+    if work not in sys.path:
+        sys.path.insert(0, work)
+    src = CLI_SRC.replace("SHAPES", shapes)
+    path = os.path.join(work, modname + ".py")
+    with open(path, "w") as f:
+        f.write(src)
+    cfgname = modname + "_cfg"
+    with open(os.path.join(work, cfgname + ".py"), "w") as f:
+        f.write(CLI_CFG.replace("DB", repr(os.path.join(work, modname + ".sqlite3"))))
+    mod = apply_gen.load(work, modname)
+    sh = apply_gen.load(work, shapes)
+    cfg = apply_gen.load(work, cfgname)
+    NoneT = type(None)
+    traces = [
+        CallTrace(mod.page, {"items": typing.List[int], "start": NoneT, "size": int}, typing.List[int]),
+        CallTrace(mod.page, {"items": typing.List[int], "start": int, "size": int}, typing.List[int]),
+        CallTrace(mod.label, {"x": int, "prefix": str}, str),
+        CallTrace(mod.Box.put, {"self": mod.Box, "thing": sh.Circle, "count": int}, sh.Circle),
+        CallTrace(mod.Box.put, {"self": mod.Box, "thing": get_type({"a": 1, "b": "x"}, k), "count": NoneT}, sh.Circle),
+    ]
+    getattr(cfg, f"CONFIG{k}").trace_store().add(traces)
+    flags = (["--ignore-existing-annotations"] if ign else []) + (["--pep_563"] if pep else [])
+    meta = f"cli: monkeytype apply {' '.join(flags)} (max_typed_dict_size={k})"
+
+    def run(argv):
+        so, se = io.StringIO(), io.StringIO()
+        try:
+            rc = cli.main(["-c", f"{cfgname}:CONFIG{k}"] + argv, so, se)
+        except BaseException as e:     # a traceback out of the command line tool
+            return 2, "", f"{type(e).__name__}: {e}"
+        return rc, so.getvalue(), se.getvalue()
+    # the stub text `apply` really used (two get_stub calls may order union members differently): observed at the call
+    seen = []
+    orig = cli.apply_stub_using_libcst
+
+    def recorder(*a, **kw):
+        seen.append(kw["stub"] if "stub" in kw else a[0])
+        return orig(*a, **kw)
+    cli.apply_stub_using_libcst = recorder
+    try:
+        rc, _, err = run(["apply", modname] + flags)
+        out = open(path).read()
+        if rc != 0 or not seen:
+            return make_case("<monkeytype apply failed>", src, ign, pep, meta, True,
+                             {"out": None, "err": f"monkeytype apply: rc={rc} {err[:300]}", "second": None})
+        stub = seen[0].rstrip("\n") + "\n"
+        rc2, _, err2 = run(["apply", modname] + flags)
+    finally:
+        cli.apply_stub_using_libcst = orig
+    second = open(path).read() if rc2 == 0 else f"second apply failed: {err2[:200]}"
+    return make_case(stub, src, ign, pep, meta, True, {"out": out, "err": None, "second": second})
+
+
 def _mk(t):
+    if t[0] == "CLI":
+        return cli_case(*t[1:])
     return make_case(*t)
 
 
@@ -78,9 +195,13 @@ def make_cases(todo):
         return pool.map(_mk, todo, chunksize=4)
 
 
-def make_case(stub, src, ow, conf, meta, gen=False):
-    """Run the real code on one input and reify input and observation."""
-    out, err = real_apply(stub, src, ow, conf)
+def make_case(stub, src, ow, conf, meta, gen=False, pre=None):
+    """Run the real code on one input and reify input and observation.  `pre` carries an observation already made
+    (the CLI stream; a stub the real machinery failed to build): {"out", "err", "second"}."""
+    if pre is not None:
+        out, err = pre["out"], pre["err"]
+    else:
+        out, err = real_apply(stub, src, ow, conf)
     c = {"stub": stub, "source": src, "overwrite": ow, "confine": conf, "out": out, "error": err, "meta": meta}
     try:
         stub_term = apply_abs.module_term(stub)
@@ -98,7 +219,7 @@ def make_case(stub, src, ow, conf, meta, gen=False):
         except SyntaxError:
             parses = False
             out_term = "(Some [])"
-        out2, err2 = real_apply(stub, out, ow, conf)
+        out2, err2 = (pre["second"], None) if pre is not None else real_apply(stub, out, ow, conf)
         idem = (out2 == out)
         c["second"] = None if idem else (out2 if out2 is not None else err2)
     c["term"] = (f"ACase {common.coq_bool(ow)} {common.coq_bool(conf)} {stub_term} {src_term} {out_term} "
@@ -160,12 +281,19 @@ def classify(c, flags):
         fid = None
         if c["confine"] and c["out"] is not None:
             try:
-                lost = [i for i in all_items(c["source"]) if i not in all_items(c["out"])]
+                src_items, out_items = item_tuples(c["source"]), item_tuples(c["out"])
             except SyntaxError:
-                lost = []
+                src_items, out_items = [], []
+            lost = [i for i in src_items if i not in out_items]
+            # the recorded class (C16 kf_shadow): the lost item is shadowed in libcst's symbol mapping - another import
+            # of the source binds the same name, or a star import of its module exists
+            def shadowed(it):
+                b = it[2] or it[1] or it[0]
+                return any(o != it and ((o[2] or o[1] or o[0]) == b or (o[0] == it[0] and o[1] == "*")) for o in src_items)
             if lost:
-                fid = "kf_confine_drops_source_import"
                 tag += f" lost={lost[:2]}"
+                if all(shadowed(i) for i in lost):
+                    fid = "kf_confine_drops_source_import"
         res.append((fid, f"{tag}: erase(result) differs from erase(source): something other than annotations/imports/"
                          f"generated classes changed"))
     if flags & 1024:
@@ -198,6 +326,12 @@ def run(ctx):
                     continue
                 todo.append((stub, src, ow, conf, f"directed:{name}"))
 
+    # the real command line path (cli.main -> apply_stub_handler -> file rewritten), all four flag combinations
+    for j, (ign, pep, k) in enumerate([(i, p, k) for k in (0, 3) for i in (False, True) for p in (False, True)]):
+        if quick and k == 3 and not (pep and not ign):
+            continue
+        todo.append(("CLI", ctx.work, shapes, f"{tag}_cli{j}", ign, pep, k))
+
     n_mod = 5 if quick else 80
     for mi in range(n_mod):
         m = apply_gen.Mod(rnd, f"{tag}_m{mi}", shapes, mi)
@@ -223,12 +357,20 @@ def run(ctx):
                 combos = rnd.sample(combos, 2 if quick else 5)
             for ow, k, conf in combos:
                 pool = apply_gen.type_pool(mod_obj, shapes_obj, k)
-                traces = apply_gen.traces_for(random.Random(tseed), fobjs, pool, chosen)
+                traces = apply_gen.traces_for(random.Random(tseed), fobjs, pool, chosen, k)
                 strat = S.IGNORE if ow else S.REPLICATE       # cli.py:217-222: overwrite := strategy == IGNORE
-                stubs = build_module_stubs_from_traces(traces, k, strat, DEFAULT_REWRITER)
-                if m.name not in stubs:
+                try:
+                    stubs = build_module_stubs_from_traces(traces, k, strat, DEFAULT_REWRITER)
+                    if m.name not in stubs:
+                        continue
+                    stub = stubs[m.name].render()
+                except Exception as e:       # no stub at all: `apply` dies, nothing is applied
+                    names = sorted({t.funcname for t in traces})
+                    todo.append((f"<stub generation raised {type(e).__name__}: {e}>", src, ow, conf,
+                                 f"{m.name}/subset{si}/k{k} traced={names}", True,
+                                 {"out": None, "err": f"build_module_stubs_from_traces raised {type(e).__name__}: {e}"[:300],
+                                  "second": None}))
                     continue
-                stub = stubs[m.name].render()
                 todo.append((stub, src, ow, conf, f"{m.name}/subset{si}/k{k}", True))
         sys.modules.pop(m.name, None)
     sys.modules.pop(shapes, None)
